@@ -193,6 +193,25 @@ example : decode demo 1
             .strs [], .int 7, .int 0] :=
   (C12_concat demo (by decide) 1 _ _ (by decide) (by decide) (by decide)).1
 
+/-- The decoder acts only on legal field numbers (1 … 2^29-1): a tag outside that range makes
+    the whole input undecodable, as in protobuf-go (`n > MaxValidNumber → errDecode`). vtproto
+    computes `int32(wire >> 3)` instead and may alias such a tag onto a declared field; no
+    encoder writes such tags (`schema_wf`: every declared number is < 2^29), so this is outside
+    the property's domain — recorded by the `raw` stream, class `bigfield`. -/
+theorem C12_fieldnum_range (bs : Bytes) (num : Nat) (it : Item) (rest : Bytes)
+    (h : parseField bs = some (num, it, rest)) : 1 ≤ num ∧ num < 2 ^ 29 := by
+  have := parseField_num bs num it rest h
+  omega
+
+example : parseField [8, 5, 9] = some (1, .varint 5, [9]) := by rfl
+-- Inner{value} given field 2^29 (tag 80 80 80 80 10), 2^31 (80 80 80 80 40) and 2^32+1
+-- (88 80 80 80 80 01, which vtproto reads as field 1): all rejected
+example : decode demo 0 [128, 128, 128, 128, 16, 7] = none := by rfl
+example : decode demo 0 [128, 128, 128, 128, 64, 5] = none := by rfl
+example : decode demo 0 [136, 128, 128, 128, 128, 1, 5] = none := by rfl
+-- the largest legal number, unknown to Inner, is skipped
+example : decode demo 0 [248, 255, 255, 255, 15, 7] = some [.int 0] := by rfl
+
 /-- **Field order is free**: the records of the fields of a message, written in any order
     of the fields (the records of one repeated field or map kept together), decode to the
     value. (Both Go encoders write ascending field numbers; a conforming peer need not.) -/
